@@ -6,14 +6,15 @@ import (
 	"strings"
 )
 
-// c04R7: configured header rules reach the place where they are applied.  A backend is made by the code's own
-// NewHost from an upstream that has (a) plain header rules, (b) only regex replacement rules, (c) both, for the
-// upstream and the downstream direction; one request is then passed through Proxy.ServeHTTP (oracle upstream and
-// backend as in the proxy traces).  Whenever the upstream configured any rule of a direction, the code that applies
-// the rules of that direction (mutateHeadersByRules / createRespHeaderUpdateFn) must run and be handed those rules.
+// c04R7: configured header rules reach the place where they are applied.  A proxy block with (a) plain header rules,
+// (b) only regex replacement rules, (c) both, in each direction, is turned into an upstream and its backend by the
+// code's own NewStaticUpstreams (token list in, parseUpstream / regexp.Compile / the reverse-proxy constructor being
+// oracles); one request is then passed through Proxy.ServeHTTP (oracle upstream and backend as in the proxy traces).
+// Whenever the block configured any rule of a direction, the code that applies the rules of that direction
+// (mutateHeadersByRules, directly or through the response update function) must run and be handed those rules.
 func c04R7(h H) {
 	r := h.r
-	r.Rule("R7", "configured header rules reach their application (E10): a backend made by staticUpstream.NewHost from an upstream with plain rules, with regex replacement rules only, or with both, in each direction, and one request passed through Proxy.ServeHTTP: mutateHeadersByRules is run on the outgoing header with the upstream's header_upstream rules and replacements, and the response-header update function handed to the backend round trip applies the header_downstream ones, whenever the upstream has any rule of that direction", 1)
+	r.Rule("R7", "configured header rules reach their application (E10): a proxy block with plain rules, with regex replacement rules only, or with both, per direction, made into an upstream and backend by NewStaticUpstreams (and NewHost), and one request passed through Proxy.ServeHTTP: mutateHeadersByRules is run on the outgoing header with the upstream's header_upstream rules and replacements, and the response-header update function handed to the backend round trip applies the header_downstream ones, whenever the upstream has any rule of that direction", 1)
 	nh := h.fn("R7", pxPkg, "(*staticUpstream).NewHost")
 	sv := h.fn("R7", pxPkg, "Proxy.ServeHTTP")
 	if nh == nil || sv == nil {
@@ -32,44 +33,50 @@ func c04R7(h H) {
 	}
 	bbT := types.Type(types.Typ[types.Int])
 	urlT := h.p.typeByName("net/url", "URL")
+	nsu := h.fn("R7", pxPkg, "NewStaticUpstreams")
+	if nsu == nil {
+		return
+	}
+	var tokT types.Type = types.Typ[types.Int]
+	if t := h.p.typeByName(modPath+"/"+cfPkg, "Token"); t != nil {
+		tokT = t
+	}
+	_ = replT
+	type combo struct{ upPlain, upRegex, downPlain, downRegex bool }
 	bad, n := "", 0
-	for _, plain := range []bool{true, false} {
-		for _, regex := range []bool{true, false} {
-			if !plain && !regex {
-				continue
-			}
+	for _, cb := range []combo{{true, false, true, false}, {false, true, false, true}, {true, true, true, true}, {true, false, false, true}, {false, true, true, false}} {
+		{
 			n++
-			desc := fmt.Sprintf("upstream with plain header rules=%v, regex replacement rules=%v (both directions)", plain, regex)
-			mkHdr := func(key string) amap {
-				m := amap{&amapData{vals: map[string]aval{}, keys: map[string]aval{}, typ: hdrT}}
-				if plain {
-					m.m.vals["s:"+key] = newVals([]aval{astr("v")}, types.Typ[types.String])
-					m.m.keys["s:"+key] = astr(key)
-				}
-				return m
+			lines := [][]string{{"proxy", "/", "backend:80", "{"}}
+			if cb.upPlain {
+				lines = append(lines, []string{"header_upstream", "X-Up", "v"})
 			}
-			mkRepl := func(key string) amap {
-				m := amap{&amapData{vals: map[string]aval{}, keys: map[string]aval{}, typ: replT}}
-				if regex {
-					m.m.vals["s:"+key] = aunk{"replacement rule"}
-					m.m.keys["s:"+key] = astr(key)
-				}
-				return m
+			if cb.upRegex {
+				lines = append(lines, []string{"header_upstream", "X-Tenant", "acme", "widgets"})
 			}
-			upHdr, downHdr, upRepl, downRepl := mkHdr("X-Up"), mkHdr("X-Down"), mkRepl("X-Tenant"), mkRepl("Location")
-			up := &aobj{name: "upstream", typ: upT, f: map[string]aval{"upstreamHeaders": upHdr, "downstreamHeaders": downHdr, "upstreamHeaderReplacements": upRepl, "downstreamHeaderReplacements": downRepl}}
-			up.in = func(o *aobj, path string, t types.Type) aval {
-				switch path {
-				case "insecureSkipVerify":
-					return abool(false)
-				case "CaCertPool", "ClientKeyPair":
-					return anil{}
-				}
-				return zeroOf(t)
+			if cb.downPlain {
+				lines = append(lines, []string{"header_downstream", "X-Down", "v"})
 			}
-			same := func(a aval, m amap) bool {
-				x, ok := a.(amap)
-				return ok && x.m == m.m
+			if cb.downRegex {
+				lines = append(lines, []string{"header_downstream", "Location", "^http://internal", "https://public"})
+			}
+			lines = append(lines, []string{"}"})
+			var toks []aval
+			var texts []string
+			for li, ln := range lines {
+				for _, t := range ln {
+					toks = append(toks, astruct{map[string]aval{"File": astr("Casketfile"), "Line": aint(int64(li + 1)), "Text": astr(t)}})
+				}
+				texts = append(texts, strings.Join(ln, " "))
+			}
+			desc := "`" + strings.Join(texts, " ⏎ ") + "`"
+			has := func(a aval, key string) bool {
+				m, ok := a.(amap)
+				if !ok {
+					return false
+				}
+				_, have := m.m.vals["s:"+key]
+				return have
 			}
 			var mutated, updated bool
 			var mutArgsOK, updArgsOK bool
@@ -92,6 +99,14 @@ func c04R7(h H) {
 			env := &absEnv{noFork: true, maxSteps: 600000, globals: map[string]*aobj{}}
 			env.ext = func(callee string, args []aval) (aval, bool) {
 				switch {
+				case strings.HasSuffix(callee, "proxy.parseUpstream"):
+					return atuple{newVals([]aval{astr("http://backend:80")}, types.Typ[types.String]), anil{}}, true
+				case callee == "regexp.Compile", callee == "regexp.MustCompile":
+					rx := aptr{&aobj{name: "regexp", typ: types.Typ[types.Int], f: map[string]aval{}}, ""}
+					if callee == "regexp.Compile" {
+						return atuple{rx, anil{}}, true
+					}
+					return rx, true
 				case callee == "net/url.Parse":
 					return atuple{aptr{&aobj{name: "url", typ: urlT, f: map[string]aval{"Host": astr("backend:80"), "User": anil{}}}, ""}, anil{}}, true
 				case strings.HasSuffix(callee, "proxy.NewSingleHostReverseProxy"):
@@ -131,13 +146,15 @@ func c04R7(h H) {
 				case callee == "errors.Is":
 					return abool(false), true
 				case strings.HasSuffix(callee, "proxy.mutateHeadersByRules"):
-					if len(args) == 4 && (same(args[1], downHdr) || same(args[3], downRepl)) {
+					if len(args) == 4 && (has(args[1], "X-Down") || has(args[3], "Location")) {
 						updated = true
-						updArgsOK = same(args[1], downHdr) && same(args[3], downRepl)
+						updArgsOK = has(args[1], "X-Down") == cb.downPlain && has(args[3], "Location") == cb.downRegex
 						return atuple{}, true
 					}
-					mutated = true
-					mutArgsOK = len(args) == 4 && same(args[1], upHdr) && same(args[3], upRepl)
+					if len(args) == 4 && (has(args[1], "X-Up") || has(args[3], "X-Tenant")) {
+						mutated = true
+						mutArgsOK = has(args[1], "X-Up") == cb.upPlain && has(args[3], "X-Tenant") == cb.upRegex
+					}
 					return atuple{}, true
 				case strings.HasSuffix(callee, "proxy.ReverseProxy).ServeHTTP"):
 					// the backend answered: the round trip hands the response to the update function it was given
@@ -156,13 +173,33 @@ func c04R7(h H) {
 				}
 				return nil, false
 			}
-			hv, und := env.run(nh, []aval{aptr{up, ""}, astr("http://backend:80")})
-			tp, ok := hv.(atuple)
+			disp := astruct{map[string]aval{"filename": astr("Casketfile"), "cursor": aint(-1), "nesting": aint(0), "tokens": newVals(toks, tokT)}}
+			uv, und := env.run(nsu, []aval{disp, astr("")})
+			tp, ok := uv.(atuple)
 			if und != "" || !ok || len(tp) != 2 {
-				bad = desc + ": NewHost: " + und + " " + describeAval(hv)
+				bad = desc + ": NewStaticUpstreams: " + und + " " + describeAval(uv)
 				break
 			}
-			host = tp[0]
+			if _, isNil := tp[1].(anil); !isNil {
+				bad = desc + ": NewStaticUpstreams rejects the block: " + describeAval(tp[1])
+				break
+			}
+			ups, _ := tp[0].(avals)
+			if len(ups.cells) != 1 {
+				bad = desc + ": NewStaticUpstreams yields " + describeAval(tp[0])
+				break
+			}
+			upP, ok := ifaceVal(ups.cells[0].f[""]).(aptr)
+			if !ok {
+				bad = desc + ": the upstream is " + describeAval(ups.cells[0].f[""])
+				break
+			}
+			hostsV, _ := env.load(upP.obj, joinPath(upP.path, "Hosts")).(avals)
+			if len(hostsV.cells) != 1 {
+				bad = desc + ": the upstream's hosts are " + describeAval(env.load(upP.obj, joinPath(upP.path, "Hosts")))
+				break
+			}
+			host = hostsV.cells[0].f[""]
 			pv := astruct{map[string]aval{"Next": aiface{aptr{&aobj{name: "next", typ: types.Typ[types.Int], f: map[string]aval{}}, ""}, types.Typ[types.Int]}, "Upstreams": anil{}}}
 			req := &aobj{name: "request", typ: reqT, f: map[string]aval{}}
 			req.in = func(o *aobj, path string, t types.Type) aval { return aunk{"request field " + path} }
@@ -172,13 +209,13 @@ func c04R7(h H) {
 			}
 			switch {
 			case !mutated:
-				bad = desc + ": the header_upstream rules of the block are never applied to the outgoing request (mutateHeadersByRules does not run)"
+				bad = desc + ": the header_upstream rules of the block are never applied to the outgoing request (mutateHeadersByRules does not run on them)"
 			case !mutArgsOK:
-				bad = desc + ": mutateHeadersByRules is not handed the upstream's own header_upstream rules and replacements"
+				bad = desc + ": mutateHeadersByRules is not handed the block's own header_upstream rules and replacements"
 			case !updated:
 				bad = desc + ": the header_downstream rules of the block are never applied to the response (the update function given to the backend round trip is absent or does not run them)"
 			case !updArgsOK:
-				bad = desc + ": the response-header update function does not apply the upstream's own header_downstream rules and replacements"
+				bad = desc + ": the response-header update function does not apply the block's own header_downstream rules and replacements"
 			}
 			if bad != "" {
 				break
